@@ -314,7 +314,7 @@ impl Interp {
                 }
                 Ok(Flow::Normal)
             }
-            StmtKind::VarDecl(name, _, init, _) => {
+            StmtKind::VarDecl(name, _, init) => {
                 let v = match init {
                     Some(e) => self.eval(e)?,
                     None => {
@@ -428,7 +428,7 @@ impl Interp {
     }
 
     fn decl_type(&self, s: &Stmt) -> R<Ty> {
-        if let StmtKind::VarDecl(_, tyx, _, _) = &s.kind {
+        if let StmtKind::VarDecl(_, tyx, _) = &s.kind {
             match resolve_runtime_ty(&self.prog, tyx) {
                 Some(t) => Ok(t),
                 None => unsup("cannot resolve declared type at run time (shadowed type name)"),
